@@ -3942,16 +3942,19 @@ def add_measures(part):
     beat_map = part.beat_map
     inv_beat_map = part.inv_beat_map
     mcounter = 1
+    pos = start
 
     for ts_start, ts_end, measure_dur in zip(
         ts_start_times, ts_end_times, beats_per_measure
     ):
-        pos = ts_start
+        # an existing measure may reach beyond the signature change
+        pos = max(pos, ts_start)
 
         while pos < ts_end:
             measure_start = pos
             measure_end_beats = min(beat_map(pos) + measure_dur, beat_map(end))
-            measure_end = min(ts_end, inv_beat_map(measure_end_beats))
+            # inv_beat_map interpolates in floating point: 22.999999999999996 means 23
+            measure_end = min(ts_end, int(np.round(inv_beat_map(measure_end_beats))))
             # any existing measures between measure_start and measure_end
             existing_measure = next(
                 part.iter_all(Measure, measure_start, measure_end), None
